@@ -117,6 +117,20 @@ theorem c16_field_failure_local (ev ev' : String → Outcome) (e : String)
     have := hagree (String.ofList nm) (hs nm cv sp rfl)
     simp [piece, fieldText, this]
 
+/-- **collection limits do not touch the message** — whichever fields find the snapshot's variable budget already
+    spent (small MAX_VARIABLES, large frames, many watches), the message is the one rendered from the values: a
+    field's text is the string of its value (or its own error text), never a collection error. -/
+theorem c16_budget_independent (spent : String → Bool) (ev : String → Outcome) (tpl : String) :
+    renderUnderBudget spent ev tpl = render ev tpl := by
+  unfold renderUnderBudget
+  have : (fun e => { ev e with text := watchText (spent e) (ev e) }) = ev := by
+    funext e
+    have h : watchText (spent e) (ev e) = (ev e).text := by
+      unfold watchText
+      cases spent e <;> simp [watchTextOnLimit, watchTextOnValue]
+    rw [h]
+  rw [this]
+
 /-- **labels** — the tracepoint logger's parameters receive: the message in `log_msg`, the tracepoint id in
     `tp_id`, the context id in `ctx_id` (argument order of the call = parameter order of the signature). -/
 theorem c16_labels (msg tp ctx : String) :
